@@ -19,6 +19,20 @@ sentinels, lists -> tuples, dicts -> frozensets):
 
 Which of two equal keys is kept as the stored key is not specified by the property: keys are always
 compared up to ==.  Error message texts are never compared.
+
+Violation keys name the pair of numeric levels in which the two keys involved differ (int covers every
+int representation; a bare representation pair such as bigint~int, or "same", appears only when no
+numeric level differs):
+  C09|hashlaw|hash|<pair>             key-equal, hashes differ
+  C09|hashlaw|keq|missed|<pair>       model-equal, interpreter's key equality says unequal
+  C09|hashlaw|keq|false-eq|<pair>     model-unequal, key equality says equal (also when only seen through a
+                                      HashMap lookup or dict ==, which needs a hash-tag collision)
+  C09|hashlaw|lookup|miss|<pair>      real HashMap lookup misses an equal key (false-hit|<pair>: finds an unequal one)
+  C09|eq|missed|<pair>, C09|eq|false-eq|<pair>   the interpreter's == against the model of ==
+  C09|hist|<pair>                     first divergence of a history, attributed to the pair of levels in which the
+                                      keys involved in that statement coincide; C09|hist|same|<op> if there is none
+  C09|construct|<kind>, C09|hashlaw|notkey|<kind>   a pool expression did not evaluate to its model value / is no key
+Per shard at most PER_KEY examples are kept per key (all are counted).
 """
 import collections
 import json
@@ -31,14 +45,14 @@ RULE = ("hashlaw cases = ordered pairs of key expressions: the fixed pool is eve
         "(int, small value in big-int representation, int beyond i64, float, rational, complex, complex with a "
         "NaN component, str, bytes, null; values 0, -0.0, +-1, 2, 1/2, 1/3, 2^53, 2^53+1, 2^63, -2^63, 2^64, 1e300, "
         "10^300, inf, nan, 1i) bare and inside [x], [x,\"t\"], [[x],[]], V(x), V(2,x), {x:1}, {\"k\":x}, {x:[x]}, "
-        "[{x:null},x], all pairs enumerated; plus seeded random nested terms of depth <= 3 each with two "
+        "[{x:null},x], all pairs of this fixed pool enumerated in every run; plus seeded random nested terms of depth <= 3 each with two "
         "re-renderings and one one-leaf mutant; distinct = distinct (source a, source b); non-trivial = a and b are "
         "different sources that are model-equal or have the same shape.  hist cases = histories of 30 statements "
         "over 4-8 key classes (scalar class x nesting), every key occurrence rendered through a random "
         "representation of its class; half of the histories draw representations from all numeric levels, half "
         "from int/big-int/float only where the class has such members; distinct = distinct history text; "
-        "non-trivial = at least one statement addresses an existing entry through a key whose numeric levels "
-        "differ from the stored key's")
+        "non-trivial = at least one statement addresses an existing entry through a key whose numeric levels or "
+        "int representations differ from the stored key's")
 ASSUMPTIONS = [
     "the Python model (exact Fractions, NaN/inf sentinels, complex with zero imaginary part equal to the real) is the `==` of the property; it is cross-checked against the interpreter's `==` on every pool pair",
     "std HashMap uses a per-map random SipHash key, so a lookup through an equal key with a different hash misses only with probability ~127/128; the hash law itself is observed with a fixed hasher by the harness",
@@ -46,10 +60,9 @@ ASSUMPTIONS = [
     "values stored in the dictionaries are small ints, null, strings and int lists so that value comparison is exact",
 ]
 PLAN = {
-    "quick": {"histories": 4800, "steps": 30, "rand_batches": 2, "batch_terms": 36},
-    "thorough": {"histories": 120000, "steps": 30, "rand_batches": 30, "batch_terms": 40},
+    "quick": {"histories": 3000, "steps": 30, "rand_batches": 2, "batch_terms": 36},
+    "thorough": {"histories": 100000, "steps": 30, "rand_batches": 20, "batch_terms": 40},
 }
-EXHAUSTIVE = {"quick": True, "thorough": True}
 
 REG = dict(level="exploration", min_nontrivial=3000, min_nontrivial_thorough=30000,
            technique="runtime reference-model monitor: all-pairs hash/equality law observed through the interpreter's own key wrapper (fixed hasher + real HashMap) and operation histories compared step by step with a Python finite-map model keyed by exact value equality",
@@ -116,37 +129,49 @@ def D(pairs, default=None):
 
 
 NUMERIC = ("int", "bigint", "hugeint", "float", "rational", "complex", "nancomplex")
+# violation keys speak about coarse numeric levels: every int representation is "int"
 COARSE = {"int": "int", "bigint": "int", "hugeint": "int", "float": "float", "rational": "rational",
-          "complex": "complex", "nancomplex": "complex"}
-PRIORITY = ["float~rational", "int~rational", "bigint~rational", "hugeint~rational", "complex~rational",
-            "complex~int", "bigint~complex", "complex~hugeint", "complex~float", "complex~nancomplex",
-            "float~nancomplex", "nancomplex~nancomplex"]
+          "complex": "complex", "nancomplex": "nancomplex"}
+PRIORITY = ["float~rational", "int~rational", "complex~rational", "complex~int", "complex~float",
+            "nancomplex~nancomplex", "complex~nancomplex", "float~nancomplex"]
 
 
-def pairname(a, b):
-    return "~".join(sorted([a, b]))
+def pairname(a, b, fine=False):
+    if fine:
+        return "~".join(sorted([a, b]))
+    return "~".join(sorted([COARSE.get(a, a), COARSE.get(b, b)]))
 
 
-def leafdiff(a, b, out, coarse=False):
-    """For two model-equal terms: collect the pairs of numeric levels at leaves where they differ."""
+def leafdiff(a, b, out, fine=False):
+    """For two model-equal terms: collect the pairs of numeric levels at leaves where they differ (coarse levels:
+    every int representation is "int"; fine: int / bigint / hugeint kept apart)."""
     if a.kind == "a" and b.kind == "a":
         la, lb = a.lev, b.lev
-        if coarse:
+        if not fine:
             la, lb = COARSE.get(la, la), COARSE.get(lb, lb)
         if la != lb:
-            out.add(pairname(la, lb))
+            out.add(pairname(la, lb, True))
     elif a.kind == b.kind and a.kind in ("l", "v"):
         for x, y in zip(a.kids, b.kids):
-            leafdiff(x, y, out, coarse)
+            leafdiff(x, y, out, fine)
     elif a.kind == b.kind == "d":
         mb = {}
         for k, v in b.kids:
             mb[k.ck] = (k, v)
         for k, v in a.kids:
             if k.ck in mb:
-                leafdiff(k, mb[k.ck][0], out, coarse)
-                leafdiff(v, mb[k.ck][1], out, coarse)
+                leafdiff(k, mb[k.ck][0], out, fine)
+                leafdiff(v, mb[k.ck][1], out, fine)
     return out
+
+
+def diff_label(a, b):
+    """Violation-key label for two model-equal terms: the (coarse) pair of numeric levels in which they differ,
+    the representation pair (e.g. bigint~int) if only that differs, else "same"."""
+    lab = pick_label(leafdiff(a, b, set()))
+    if lab == "same":
+        lab = pick_label(leafdiff(a, b, set(), True))
+    return lab
 
 
 def pick_label(pairs):
@@ -170,19 +195,6 @@ def toptag(t):
     if t.kind == "a":
         return t.lev
     return {"l": "list", "v": "vector", "d": "dict"}[t.kind]
-
-
-def levels_in(t, out):
-    if t.kind == "a":
-        out.add(t.lev)
-    elif t.kind == "d":
-        for k, v in t.kids:
-            levels_in(k, out)
-            levels_in(v, out)
-    else:
-        for k in t.kids:
-            levels_in(k, out)
-    return out
 
 
 # ---------------------------------------------------------------- scalar classes (all members model-equal)
@@ -217,7 +229,7 @@ CLASSES = collections.OrderedDict([
     ("m63", [A("(0 - 9223372036854775807 - 1)", -P63, "int"), A("(-(2.0^63))", -(2.0 ** 63), "float"),
              A("((-(2^63)) // 1)", -P63, "bigint"), A("rational(-(2^63))", Fraction(-P63), "rational")]),
     ("f1e300", [A("1e300", 1e300, "float")]),
-    ("i1e300", [A("10^300", 10 ** 300, "hugeint")]),
+    ("i1e300", [A("(10^300)", 10 ** 300, "hugeint")]),
     ("inf", [A("(1.0/0.0)", INF, "float"), A("((1.0/0.0) + 0i)", complex(INF, 0), "complex")]),
     ("minf", [A("(0.0 - 1.0/0.0)", -INF, "float")]),
     ("nan", [A("(0.0/0.0)", NAN, "float"), A("(-(0.0/0.0))", NAN, "float"),
@@ -314,14 +326,15 @@ def viol(sh, key, what, replay):
         sh.count("violations_total")
 
 
-def unequal_label(a, b):
-    """Label for two model-unequal terms: the levels of the leaves that differ when the shapes agree."""
-    out = set()
+def differing_leaves(a, b):
+    """Parallel walk of two terms of the same shape: the pairs of atoms that are model-unequal, or None when the
+    shapes differ (dicts are only walked when they have a single entry)."""
+    out = []
 
     def walk(x, y):
         if x.kind == "a" and y.kind == "a":
             if x.ck != y.ck:
-                out.add(pairname(x.lev, y.lev))
+                out.append((x, y))
             return True
         if x.kind != y.kind or len(x.kids) != len(y.kids):
             return False
@@ -330,15 +343,45 @@ def unequal_label(a, b):
                 return False
             return walk(x.kids[0][0], y.kids[0][0]) and walk(x.kids[0][1], y.kids[0][1])
         return all(walk(p, q) for p, q in zip(x.kids, y.kids))
-    if walk(a, b) and out:
-        return pick_label(out)
+    return out if walk(a, b) else None
+
+
+def unequal_label(a, b):
+    """Label for two model-unequal terms: the levels of the leaves that differ when the shapes agree."""
+    dl = differing_leaves(a, b)
+    if dl:
+        return pick_label(set(pairname(x.lev, y.lev) for x, y in dl))
     return pairname(toptag(a), toptag(b))
 
 
+def leaf_false_eq(w, a, b):
+    """Is a wrong 'equal' verdict on the unequal terms a, b explained by the interpreter's key equality calling
+    their differing leaves equal (observed with a hashlaw job on the leaves)?  Such a verdict through a HashMap
+    (dict ==, lookup) needs a hash-tag collision and is nondeterministic; it is reported under the key of the
+    deterministic leaf-level observation."""
+    dl = differing_leaves(a, b)
+    if not dl:
+        return False
+    for x, y in dl[:4]:
+        r = w.run({"kind": "hashlaw", "id": "c09leaf", "prelude": [], "exprs": [x.src, y.src]})
+        keq = (r.get("result") or {}).get("keq")
+        if not keq or keq[0][1] != "1":
+            return False
+    return True
+
+
 def demo_job(a, b):
+    """An ordinary eval job showing what a pair of keys does to dictionaries (for replays)."""
     return {"kind": "eval", "fresh_each": True,
             "stmts": ["%s == %s" % (a.src, b.src), "{%s: 1} !? %s" % (a.src, b.src),
                       "len({%s: 1, %s: 2})" % (a.src, b.src), "count_distinct([%s, %s])" % (a.src, b.src)]}
+
+
+def demo_expected(a, b):
+    if a.ck == b.ck:
+        return {"==": 0 if (a.nanx or b.nanx) else 1, "!?": 1, "len": 1, "count_distinct": 1,
+                "why": "the keys are equal (NaN equal to itself): one entry, same hash"}
+    return {"==": 0, "!?": None, "len": 2, "count_distinct": 2, "why": "the keys are unequal: two entries, every time"}
 
 
 def run_hashlaw(sh, w, terms, tag, rows=None, check_hash=True, cross_eq=True):
@@ -371,7 +414,7 @@ def run_hashlaw(sh, w, terms, tag, rows=None, check_hash=True, cross_eq=True):
         if hashes[i] is None:
             usable[i] = False
             viol(sh, "C09|hashlaw|notkey|" + toptag(t), "%s is not accepted as a dictionary key" % t.src,
-                         {"job": {"kind": "eval", "stmts": ["{%s: 1}" % t.src]}, "expected": "a dictionary"})
+                 {"job": {"kind": "eval", "stmts": ["{%s: 1}" % t.src]}, "expected": "a dictionary"})
     rowset = range(n) if rows is None else rows
     shapes = [shape(t) for t in terms]
     # (1) model-equal <=> key-equal
@@ -392,17 +435,17 @@ def run_hashlaw(sh, w, terms, tag, rows=None, check_hash=True, cross_eq=True):
             if (ch == "1") == meq:
                 continue
             if meq:
-                lab = pick_label(leafdiff(ti, tj, set()))
+                lab = diff_label(ti, tj)
                 viol(sh, "C09|hashlaw|keq|missed|" + lab,
-                             "keys %s and %s are == in the model but the interpreter's key equality says unequal" % (ti.src, tj.src),
-                             {"job": demo_job(ti, tj), "hashlaw_job": {"kind": "hashlaw", "exprs": [ti.src, tj.src]},
-                              "expected": "key-equal (one entry)"})
+                     "keys %s and %s are == in the model but the interpreter's key equality says unequal" % (ti.src, tj.src),
+                     {"job": demo_job(ti, tj), "hashlaw_job": {"kind": "hashlaw", "exprs": [ti.src, tj.src]},
+                      "expected": demo_expected(ti, tj)})
             else:
                 lab = unequal_label(ti, tj)
                 viol(sh, "C09|hashlaw|keq|false-eq|" + lab,
-                             "keys %s and %s are unequal but the interpreter's key equality says equal" % (ti.src, tj.src),
-                             {"job": demo_job(ti, tj), "hashlaw_job": {"kind": "hashlaw", "exprs": [ti.src, tj.src]},
-                              "expected": "not key-equal (two entries)"})
+                     "keys %s and %s are unequal but the interpreter's key equality says equal" % (ti.src, tj.src),
+                     {"job": demo_job(ti, tj), "hashlaw_job": {"kind": "hashlaw", "exprs": [ti.src, tj.src]},
+                      "expected": demo_expected(ti, tj)})
     sh.count("hashlaw:pairs_" + tag, len(rowset) * n)
     # (2) key-equal => equal hashes (judged on the interpreter's own key equality)
     if check_hash:
@@ -414,14 +457,14 @@ def run_hashlaw(sh, w, terms, tag, rows=None, check_hash=True, cross_eq=True):
                 if row[j] == "1" and usable[j] and hashes[i] != hashes[j]:
                     ti, tj = terms[i], terms[j]
                     if cids[i] == cids[j]:
-                        lab = pick_label(leafdiff(ti, tj, set()))
+                        lab = diff_label(ti, tj)
                     else:
                         lab = unequal_label(ti, tj)
                     sh.count("hashlaw:hash_mismatch")
                     viol(sh, "C09|hashlaw|hash|" + lab,
-                                 "keys %s and %s are key-equal but hash differently (%s vs %s)" % (ti.src, tj.src, hashes[i], hashes[j]),
-                                 {"job": demo_job(ti, tj), "hashlaw_job": {"kind": "hashlaw", "exprs": [ti.src, tj.src]},
-                                  "expected": "equal hashes; lookup through either key finds the entry"})
+                         "keys %s and %s are key-equal but hash differently (%s vs %s)" % (ti.src, tj.src, hashes[i], hashes[j]),
+                         {"job": demo_job(ti, tj), "hashlaw_job": {"kind": "hashlaw", "exprs": [ti.src, tj.src]},
+                          "expected": demo_expected(ti, tj)})
         # (3) the real HashMap lookup: finds the first earlier member of the class, and nothing else
         first = {}
         for i in range(n):
@@ -436,16 +479,20 @@ def run_hashlaw(sh, w, terms, tag, rows=None, check_hash=True, cross_eq=True):
             ti = terms[i]
             if got is not None and cids[got] != cids[i]:
                 tj = terms[got]
-                viol(sh, "C09|hashlaw|lookup|false-hit|" + unequal_label(ti, tj),
-                             "HashMap lookup of %s found the unequal key %s" % (ti.src, tj.src),
-                             {"job": demo_job(tj, ti), "expected": "lookup misses"})
+                sh.count("hashlaw:lookup_false_hit")
+                # a hit on a key the interpreter's key equality (wrongly) calls equal is the false-eq defect
+                # seen through a HashMap (it needs a 7-bit tag collision: nondeterministic), same key
+                kind = "keq|false-eq" if keq[i][got] == "1" or leaf_false_eq(w, ti, tj) else "lookup|false-hit"
+                viol(sh, "C09|hashlaw|%s|%s" % (kind, unequal_label(ti, tj)),
+                     "HashMap lookup of %s found the unequal key %s" % (ti.src, tj.src),
+                     {"job": demo_job(tj, ti), "expected": demo_expected(tj, ti)})
             elif got is None:
                 tj = terms[exp]
-                lab = pick_label(leafdiff(ti, tj, set()))
+                lab = diff_label(ti, tj)
                 sh.count("hashlaw:lookup_miss")
                 viol(sh, "C09|hashlaw|lookup|miss|" + lab,
-                             "HashMap lookup of %s did not find the equal key %s inserted earlier" % (ti.src, tj.src),
-                             {"job": demo_job(tj, ti), "expected": "lookup finds the entry"})
+                     "HashMap lookup of %s did not find the equal key %s inserted earlier" % (ti.src, tj.src),
+                     {"job": demo_job(tj, ti), "expected": demo_expected(tj, ti)})
             # got is another member of the same class: an earlier miss (already reported) inserted it
         sh.count("hashlaw:lookups_" + tag, n)
     # (4) the model's equality against the interpreter's ==
@@ -473,12 +520,15 @@ def run_hashlaw(sh, w, terms, tag, rows=None, check_hash=True, cross_eq=True):
                 if got == want:
                     continue
                 if cids[i] == cids[j]:
-                    lab = pick_label(leafdiff(ti, tj, set())) + "|" + toptag(ti)
+                    lab = diff_label(ti, tj)
                 else:
                     lab = unequal_label(ti, tj)
-                viol(sh, "C09|eq|%s|%s" % ("missed" if want == "1" else "false-eq", lab),
-                             "%s == %s gives %s, the model of == says %s" % (ti.src, tj.src, got, want),
-                             {"job": {"kind": "eval", "stmts": ["%s == %s" % (ti.src, tj.src)]}, "expected": {"i": want}})
+                kind = "C09|eq|missed" if want == "1" else "C09|eq|false-eq"
+                if want == "0" and (keq[i][j] == "1" or leaf_false_eq(w, ti, tj)):
+                    kind = "C09|hashlaw|keq|false-eq"      # the same defect seen through == (nondeterministically)
+                viol(sh, "%s|%s" % (kind, lab),
+                     "%s == %s gives %s, the model of == says %s" % (ti.src, tj.src, got, want),
+                     {"job": {"kind": "eval", "stmts": ["%s == %s" % (ti.src, tj.src)]}, "expected": {"i": want}})
             sh.count("eq:comparisons", n)
     return
 
@@ -517,8 +567,6 @@ class Shape:
     def render(self, r, profile):
         if self.kind == "a":
             return rand_atom(r, self.cname, profile)
-        if self.kind == "const":
-            return self.cname
         if self.kind == "l":
             return L(*[k.render(r, profile) for k in self.kids])
         if self.kind == "v":
@@ -540,8 +588,8 @@ class Shape:
         return out
 
     def clone(self):
-        if self.kind in ("a", "const"):
-            return Shape(self.kind, (), self.cname)
+        if self.kind == "a":
+            return Shape("a", (), self.cname)
         if self.kind == "d":
             return Shape("d", tuple((k.clone(), v.clone()) for k, v in self.kids))
         return Shape(self.kind, tuple(k.clone() for k in self.kids))
@@ -817,7 +865,7 @@ class Hist:
 
     def note_cross(self, md, k):
         ent = md.m.get(k.ck)
-        if ent is not None and leafdiff(ent[0], k, set()):
+        if ent is not None and leafdiff(ent[0], k, set(), True):
             self.cross += 1
 
     def keylist(self, lo, hi):
@@ -958,7 +1006,7 @@ class Hist:
                         md.put(t, v)
                 sym = "||+"
             for ck, (t, _v) in b.m.items():
-                if ck in a.m and leafdiff(a.m[ck][0], t, set()):
+                if ck in a.m and leafdiff(a.m[ck][0], t, set(), True):
                     self.cross += 1
                     break
             expr = "%s %s %s" % (an, sym, bn)
@@ -996,7 +1044,7 @@ class Hist:
                 if k.ck not in groups:
                     order.append(k.ck)
                 groups.setdefault(k.ck, []).append(k)
-            if any(len(set(x.src for x in g)) > 1 and leafdiff(g[0], x, set()) for g in groups.values() for x in g):
+            if any(len(set(x.src for x in g)) > 1 and leafdiff(g[0], x, set(), True) for g in groups.values() for x in g):
                 self.cross += 1
             if op == "unique":
                 return "unique(%s)" % lst, ("ukeys", order), ks
@@ -1027,7 +1075,7 @@ class Hist:
             if r.random() < 0.25:
                 same = set(d.m) == set(e.m) and all(to_canon(d.m[ck][1]) == to_canon(e.m[ck][1]) for ck in d.m)
                 for ck in d.m:
-                    if ck in e.m and leafdiff(d.m[ck][0], e.m[ck][0], set()):
+                    if ck in e.m and leafdiff(d.m[ck][0], e.m[ck][0], set(), True):
                         self.cross += 1
                         break
                 return r.choice(["d == e", "e == d"]), ("val", 1 if same else 0), d.reps() + e.reps()
@@ -1035,7 +1083,7 @@ class Hist:
             inv = d.reps()
             for ck, (t, v) in d.m.items():
                 alt = self.alt_of(t)
-                if leafdiff(alt, t, set()):
+                if leafdiff(alt, t, set(), True):
                     self.cross += 1
                 inv.append(alt)
                 ents.append((alt, v))
@@ -1063,7 +1111,7 @@ class Hist:
                 k = self.key()
                 prev = [t for t, _n in self.memo1.values()]
                 if k.ck in self.memo1:
-                    if leafdiff(self.memo1[k.ck][0], k, set()):
+                    if leafdiff(self.memo1[k.ck][0], k, set(), True):
                         self.cross += 1
                 else:
                     self.cnt += 1
@@ -1074,7 +1122,7 @@ class Hist:
             prev = [t for ts, _n in self.memo2.values() for t in ts]
             if ck in self.memo2:
                 (p1, p2), _n = self.memo2[ck]
-                if leafdiff(p1, k1, set()) or leafdiff(p2, k2, set()):
+                if leafdiff(p1, k1, set(), True) or leafdiff(p2, k2, set(), True):
                     self.cross += 1
             else:
                 self.cnt += 1
@@ -1099,15 +1147,22 @@ def culprit(involved):
     for t in involved:
         by.setdefault(t.ck, {}).setdefault(t.src, t)
     pairs = set()
+    fine = set()
     for g in by.values():
         ts = list(g.values())[:8]
         for i in range(len(ts)):
             for j in range(i + 1, len(ts)):
-                leafdiff(ts[i], ts[j], pairs, coarse=True)
-    return pick_label(pairs)
+                leafdiff(ts[i], ts[j], pairs)
+                leafdiff(ts[i], ts[j], fine, True)
+    return pick_label(pairs) if pairs else pick_label(fine)
 
 
-def run_history(sh, w, r, nsteps, idx):
+RESET = ("d = {}; e = {}; cnt = 0; m = memoize(\\x -> (cnt += 1; cnt)); "
+         "m2 = memoize(\\x, y -> (cnt += 1; cnt)); null")
+HIST_PER_JOB = 8
+
+
+def gen_history(r, nsteps):
     profile = "full" if r.random() < 0.5 else "plain"
     h = Hist(r, profile)
     steps = []
@@ -1121,9 +1176,33 @@ def run_history(sh, w, r, nsteps, idx):
             h.cross = before_cross
             continue
         steps.append((op,) + res + (h.d.copy(), h.e.copy()))
-    stmts = [s[1] for s in steps]
-    evs = core.eval_all(w, stmts, prelude=PRELUDE, fresh_each=False, fuel=2_000_000, jid="c09-%d" % idx,
+    return h, steps
+
+
+def run_histories(sh, w, r, nsteps, count, idx0):
+    """Several histories per harness job; each starts by resetting d, e, the counter and the memoised
+    functions, so the histories are independent (a replay runs one of them alone after PRELUDE)."""
+    hs = [gen_history(r, nsteps) for _ in range(count)]
+    stmts = []
+    for _h, steps in hs:
+        stmts.append(RESET)
+        stmts.extend(s[1] for s in steps)
+    evs = core.eval_all(w, stmts, prelude=PRELUDE, fresh_each=False, fuel=2_000_000, jid="c09-%d" % idx0,
                         observe=["d", "e"])
+    pos = 0
+    for k, (h, steps) in enumerate(hs):
+        reset_ev = evs[pos]
+        hev = evs[pos + 1:pos + 1 + len(steps)]
+        pos += 1 + len(steps)
+        if reset_ev.get("o") != "ok":
+            sh.inconc("reset:" + str(reset_ev.get("o")), RESET)
+            continue
+        judge_history(sh, h, steps, hev, idx0 + k)
+
+
+def judge_history(sh, h, steps, evs, idx):
+    profile = h.profile
+    stmts = [s[1] for s in steps]
     text = "\n".join(stmts)
     sh.seen(profile + "\n" + text, h.cross > 0)
     sh.count("hist:profile_" + profile)
@@ -1155,13 +1234,14 @@ def run_history(sh, w, r, nsteps, idx):
                     sym = "e afterwards: " + sym
         if sym is not None:
             lab = culprit(involved)
-            key = "C09|hist|%s|%s" % (GROUP[op] if lab != "same" else op, lab)
+            key = "C09|hist|%s" % lab if lab != "same" else "C09|hist|same|%s" % op
             before = steps[i - 1][4].show() if i else "{}"
             sh.count("hist:first_divergence_at_op_" + op)
+            sh.count("hist:first_divergence_%s_%s" % (GROUP[op], lab))
             viol(sh, key, "%s `%s` (step %d; d before = %s): %s" % (op, stmt[:160], i, before[:200], sym[:260]),
-                         {"job": {"kind": "eval", "prelude": PRELUDE, "stmts": stmts[:i + 1], "observe": ["d", "e"],
-                                  "fuel": 2_000_000},
-                          "expected": {"step": i, "result": _exp_text(exp), "d": md.show(), "e": me.show()}})
+                 {"job": {"kind": "eval", "prelude": PRELUDE, "stmts": stmts[:i + 1], "observe": ["d", "e"],
+                          "fuel": 2_000_000},
+                  "expected": {"step": i, "result": _exp_text(exp), "d": md.show(), "e": me.show()}})
             break
         completed += 1
     sh.count("hist:steps_checked", completed)
@@ -1207,8 +1287,11 @@ def shard(ctx, si, n):
             run_hashlaw(sh, w, terms, "random", rows=None, check_hash=True, cross_eq=True)
             sh.count("hashlaw:random_batches")
         total = plan["histories"] // n + (1 if si < plan["histories"] % n else 0)
-        for hidx in range(total):
-            run_history(sh, w, r, plan["steps"], hidx)
+        hidx = 0
+        while hidx < total:
+            k = min(HIST_PER_JOB, total - hidx)
+            run_histories(sh, w, r, plan["steps"], k, hidx)
+            hidx += k
     finally:
         w.close()
     return sh
